@@ -18,7 +18,7 @@ func init() {
 	fw.Register(&fw.Property{
 		ID:    "C17",
 		Level: "exploration",
-		Rule: "cases = 2-8 goroutines x 3-20 writes on ONE store (all three types, on-disk directory) with a schedule-point handler in {none, PRNG delays at write.after-append / write.after-persist / write.after-index, targeted: the writer that arrives first at write.after-append is held until another writer has passed write.after-persist, index-hold: one index rebuild is held at index.after-values while other writers proceed}, some on a store preloaded with 120 entries; every other write goes to a key only its goroutine uses and is read back by that goroutine at once; then close, reopen on the same directory and Load(-1). The arrival order at the points is recorded. " +
+		Rule: "cases = 2-8 goroutines x 3-20 writes on ONE store (all three types, on-disk directory) with a schedule-point handler in {none, PRNG delays at write.after-append / write.after-persist / write.after-index, targeted: the writer that arrives first at write.after-append is held until another writer has passed write.after-persist, index-hold: one index rebuild is held at index.after-values while other writers proceed, index-inversion: the writer that persisted first refreshes the view only after a later writer has refreshed it}, some on a store preloaded with 120 entries; every other write goes to a key only its goroutine uses and is read back by that goroutine at once; then close, reopen on the same directory and Load(-1). The arrival order at the points is recorded. " +
 			"distinct = hash(store type, goroutines, writes, handler, observed arrival-order signature); non-trivial = write calls really overlapped at the API boundary (a call started while another was in flight); the number of arrivals at write.after-append while another writer was between append and persist is reported separately",
 		Assumptions: []string{"clean close before the restart (crashes are C05)", "one store instance per identity"},
 		Cases:       c17Cases,
@@ -35,11 +35,11 @@ func c17Cases(tier string, seed int64) []fw.Case {
 		n = 600
 	}
 	rng := rand.New(rand.NewSource(seed*613651349 + 17))
-	hs := []string{"none", "delays", "targeted", "index-hold"}
+	hs := []string{"none", "delays", "targeted", "index-hold", "index-inversion"}
 	var out []fw.Case
 	for i := 0; i < n; i++ {
 		out = append(out, fw.Case{Idx: i, Seed: rng.Int63(), P: map[string]interface{}{
-			"type": storeTypes[i%3], "g": 2 + rng.Intn(7), "w": 3 + rng.Intn(18), "handler": hs[(i/3)%4], "preload": []int{0, 0, 120}[i%3],
+			"type": storeTypes[i%3], "g": 2 + rng.Intn(7), "w": 3 + rng.Intn(18), "handler": hs[(i/3)%5], "preload": []int{0, 0, 120}[i%3],
 		}})
 	}
 	return out
@@ -118,6 +118,7 @@ func c17Run(c fw.Case) fw.Verdict {
 			}
 		}
 	})
+	var invCh chan struct{}
 	e.H.SetPoint("write.after-persist", func(string, []interface{}) {
 		note('p')
 		mu.Lock()
@@ -125,6 +126,25 @@ func c17Run(c fw.Case) fw.Verdict {
 		if heldCh != nil {
 			close(heldCh)
 			heldCh = nil
+		}
+		var inv chan struct{}
+		if handler == "index-inversion" && invCh == nil {
+			// this writer appended first; it refreshes the view only after a later writer has refreshed it
+			invCh = make(chan struct{})
+			inv = invCh
+		}
+		if inv != nil {
+			mu.Unlock()
+			select {
+			case <-inv:
+			case <-time.After(8 * time.Millisecond):
+				mu.Lock()
+				if invCh == inv {
+					invCh = nil
+				}
+				mu.Unlock()
+			}
+			mu.Lock()
 		}
 		d := time.Duration(0)
 		if handler == "delays" {
@@ -136,7 +156,15 @@ func c17Run(c fw.Case) fw.Verdict {
 		}
 	})
 	if handler != "index-hold" {
-		e.H.SetPoint("write.after-index", func(string, []interface{}) { note('i') })
+		e.H.SetPoint("write.after-index", func(string, []interface{}) {
+			note('i')
+			mu.Lock()
+			if invCh != nil {
+				close(invCh)
+				invCh = nil
+			}
+			mu.Unlock()
+		})
 	}
 
 	type ack struct {
